@@ -170,6 +170,10 @@ const (
 
 var ErrInjected = errors.New("simdisk: injected I/O error")
 
+// InjectedErr, when not nil, is the error value injected faults carry instead of ErrInjected (an errno such as
+// syscall.EINTR that code may single out). Set by an engine around one run; engines run one at a time.
+var InjectedErr error
+
 // Disk is the runtime object: volatile view + op log.
 type Disk struct {
 	mu      sync.Mutex
@@ -193,6 +197,9 @@ type Disk struct {
 	FaultPersistent bool
 	FaultAll        bool // once the fault has fired, every later faultable op of any kind fails too (the device is gone) until the harness clears FaultAt
 	FaultHit        *Op
+	// EagerEOF: a read that ends exactly at the end of the file returns io.EOF together with the full count
+	// (the other behaviour io.ReaderAt allows; os.File returns nil there)
+	EagerEOF bool
 	faultKindHit    OpKind
 	FaultOps        int  // faultable ops seen so far
 	NoLog           bool // do not record the op log (engines that only need the volatile view)
@@ -255,7 +262,12 @@ func (d *Disk) fault(k OpKind) FaultKind {
 	return FaultNone
 }
 
-func pathErr(op, name string, err error) error { return &fs.PathError{Op: op, Path: name, Err: err} }
+func pathErr(op, name string, err error) error {
+	if err == ErrInjected && InjectedErr != nil {
+		err = InjectedErr
+	}
+	return &fs.PathError{Op: op, Path: name, Err: err}
+}
 
 type Handle struct {
 	d      *Disk
@@ -349,6 +361,11 @@ func (h *Handle) ReadAt(p []byte, off int64) (int, error) {
 	}
 	n := copy(p, h.ino.data[off:])
 	if n < len(p) {
+		return n, io.EOF
+	}
+	if h.d.EagerEOF && len(p) > 0 && off+int64(n) == int64(len(h.ino.data)) {
+		// io.ReaderAt: "If the n = len(p) bytes returned by ReadAt are at the end of the input source, ReadAt
+		// may return either err == EOF or err == nil"
 		return n, io.EOF
 	}
 	return n, nil
